@@ -24,7 +24,8 @@ Toks == << [auth |-> [f |-> <<>>, r |-> <<>>, c |-> <<>>], blocks |-> <<>>],
            [auth |-> [f |-> <<>>, r |-> << R(<<1, -1>>, << <<0, -1>> >>, <<>>) >>, c |-> <<>>],                           \* ok(x) <- op(x)
             blocks |-> << [f |-> <<>>, r |-> <<>>, c |-> << << Q(<< <<1, 0>> >>, <<>>) >> >>] >>] >>                       \* block: check if ok(0)
 FactCat == << <<0, 0>>, <<0, 1>> >>                                   \* op(read), op(write)
-RuleCat == << R(<<1, 1>>, << <<0, 0>> >>, <<>>) >>                     \* ok(1) <- op(0)
+RuleCat == << R(<<1, 1>>, << <<0, 0>> >>, <<>>),                        \* ok(1) <- op(0)
+             R(<<1, 0>>, << <<0, 0>> >>, << G("E", 0, 0) >>) >>          \* fails whenever op(read) is present: evaluation aborts
 CheckCat == << << Q(<< <<0, 1>> >>, <<>>) >> >>                        \* check if op(write)
 PolLists == << << [kind |-> "allow", q |-> << Q(<< <<0, 0>> >>, <<>>) >>] >>,                      \* allow if op(read)
                << [kind |-> "deny", q |-> << Q(<< <<1, 1>> >>, <<>>) >>], [kind |-> "allow", q |-> << Q(<<>>, <<>>) >>] >> >>
@@ -33,7 +34,7 @@ Queries == << R(<<11, -1>>, << <<0, -1>> >>, <<>>), R(<<11, -1>>, << <<1, -1>> >
 SetToSeqL(S) == LET RECURSIVE f(_) f(X) == IF X = {} THEN <<>> ELSE LET x == CHOOSE x \in X : TRUE IN <<x>> \o f(X \ {x}) IN f(S)
 Opt(cat, i) == IF i = 0 THEN <<>> ELSE <<cat[i]>>
 Content(f, r, c, p) == [f |-> Opt(FactCat, f), r |-> Opt(RuleCat, r), c |-> Opt(CheckCat, c), p |-> PolLists[p]]
-Contents == {Content(f, r, c, p) : f \in 0..2, r \in 0..1, c \in 0..1, p \in 1..2}
+Contents == {Content(f, r, c, p) : f \in 0..2, r \in 0..2, c \in 0..1, p \in 1..2}
 
 New(t) == [tok |-> t, wf |-> {}, wr |-> <<>>, c |-> <<>>, p |-> <<>>, dirty |-> FALSE, bf |-> {}, br |-> <<>>]
 None == [tok |-> 0]
@@ -57,11 +58,16 @@ ProcOn(a) == LET z == [f |-> <<>>, r |-> a.wr, c |-> a.c, p |-> a.p]
                  s3 == Policies(s2, z)
              IN Blocks(ResetRules(s3), tok, 1)
 
+\* an evaluation that aborts in the authority-level run leaves the loaded token content in the world, rules included,
+\* and the authorizer is NOT marked evaluated; an abort in a later block happens after the rules were dropped
 AfterAuthorize(a) ==
     LET s == ProcOn(a) v == VerdictOf(s)
-        b == [a EXCEPT !.wf = s.world, !.wr = <<>>, !.dirty = TRUE]
+        tok == Toks[a.tok]
+        firstRunFails == RunFails(a.wf \cup SeqSet(tok.auth.f), a.wr \o tok.auth.r)
+        b == IF firstRunFails THEN [a EXCEPT !.wf = @ \cup SeqSet(tok.auth.f), !.wr = @ \o tok.auth.r]
+             ELSE [a EXCEPT !.wf = s.world, !.wr = <<>>, !.dirty = TRUE]
     IN IF BaseOverwritten /\ v \in {"ok", "denied", "nomatch"} THEN [b EXCEPT !.bf = s.world, !.br = <<>>] ELSE b
-AfterQuery(a) == [a EXCEPT !.wf = Lfp(a.wf, a.wr), !.dirty = TRUE]
+AfterQuery(a) == IF RunFails(a.wf, a.wr) THEN a ELSE [a EXCEPT !.wf = Lfp(a.wf, a.wr), !.dirty = TRUE]
 AfterReset(a) == [a EXCEPT !.wf = a.bf, !.wr = a.br, !.c = <<>>, !.p = <<>>, !.dirty = FALSE]
 SnapOf(a) == [ok |-> TRUE, f |-> a.wf, r |-> a.wr, c |-> a.c, p |-> a.p]
 AfterLoad(a, sn) == [a EXCEPT !.wf = @ \cup sn.f, !.wr = @ \o sn.r, !.c = sn.c, !.p = sn.p]
@@ -78,8 +84,10 @@ DoAdd == /\ stage = "add"
 
 DoAuthorize(s) == /\ az' = [az EXCEPT ![s] = AfterAuthorize(@)]
                   /\ Log(H("authorize", s, [x |-> 0], [v |-> {VerdictOf(ProcOn(az[s]))}]))
+QueryExp(a, q) == IF RunFails(a.wf, a.wr) THEN [qerr |-> TRUE]
+                  ELSE [rows |-> SetToSeqL(Conseq(Queries[q], Lfp(a.wf, a.wr)))]
 DoQuery(s, q) == /\ az' = [az EXCEPT ![s] = AfterQuery(@)]
-                 /\ Log(H("query", s, Queries[q], [rows |-> SetToSeqL(Conseq(Queries[q], Lfp(az[s].wf, az[s].wr)))]))
+                 /\ Log(H("query", s, Queries[q], QueryExp(az[s], q)))
 
 Eval == /\ stage = "eval"
         /\ \/ DoAuthorize(1)
@@ -87,6 +95,8 @@ Eval == /\ stage = "eval"
         /\ stage' = IF round = Rounds_ THEN (IF Shape = "reset" THEN "final" ELSE "save") ELSE "reset"
         /\ UNCHANGED <<snap, round>>
 SkipEval == /\ stage = "eval" /\ Shape = "snapshot" /\ stage' = "save" /\ UNCHANGED <<az, snap, hist, round>>
+\* C13: content added but never evaluated before Reset
+SkipEvalReset == /\ stage = "eval" /\ Shape = "reset" /\ round < Rounds_ /\ stage' = "reset" /\ UNCHANGED <<az, snap, hist, round>>
 
 DoReset == /\ stage = "reset"
            /\ az' = [az EXCEPT ![1] = AfterReset(@)] /\ Log(H("reset", 1, [x |-> 0], [ok |-> TRUE]))
@@ -96,8 +106,7 @@ DoReset == /\ stage = "reset"
 Final == /\ stage = "final"
          /\ LET a == az[1]
                 a1 == IF a.dirty /\ a.wr = <<>> THEN a ELSE AfterQuery(a)
-            IN /\ hist' = hist \o [q \in 1..Len(Queries) |->
-                                     H("query", 1, Queries[q], [rows |-> SetToSeqL(Conseq(Queries[q], Lfp(a.wf, a.wr)))])]
+            IN /\ hist' = hist \o [q \in 1..Len(Queries) |-> H("query", 1, Queries[q], QueryExp(a, q))]
                /\ az' = [az EXCEPT ![1] = a1]
          /\ stage' = "done" /\ UNCHANGED <<snap, round>>
 
@@ -114,11 +123,11 @@ DoLoad == /\ stage = "load"
                 IN /\ az' = [az EXCEPT ![2] = b2]
                    /\ hist' = hist \o << H("new", 2, [t |-> t], [ok |-> TRUE]), H("load", 2, [x |-> 0], [ok |-> TRUE]),
                                          H("authorize", 2, [x |-> 0], [v |-> {VerdictOf(s)}]) >>
-                                   \o [q \in 1..Len(Queries) |-> H("query", 2, Queries[q], [rows |-> SetToSeqL(Conseq(Queries[q], b2.wf))])]
+                                   \o [q \in 1..Len(Queries) |-> H("query", 2, Queries[q], QueryExp(b2, q))]
                                    \o << H("authorize", 1, [x |-> 0], [v |-> {VerdictOf(ProcOn(az[1]))}]) >>
           /\ stage' = "done" /\ UNCHANGED <<snap, round>>
 
-Next == DoAdd \/ Eval \/ SkipEval \/ DoReset \/ Final \/ DoSave \/ DoLoad
+Next == DoAdd \/ Eval \/ SkipEval \/ SkipEvalReset \/ DoReset \/ Final \/ DoSave \/ DoLoad
 Spec == Init /\ [][Next]_vars
 
 -----------------------------------------------------------------------------
@@ -127,7 +136,9 @@ ResetClean == stage = "add" => az[1] = New(az[1].tok)
 \* C18: the restored authorizer decides like the original would for the same token (checked on equal tokens)
 SnapshotEquiv == stage = "done" /\ Shape = "snapshot" /\ snap.ok /\ az[2].tok # 0 /\ az[2].tok = az[1].tok =>
                     hist[Len(hist)].exp = hist[Len(hist) - Len(Queries) - 1].exp
+\* a successful evaluation (authorize that ran, or query) before the save makes it refused
+Evaluated(e) == (e.op = "authorize" /\ e.exp.v # {"other"}) \/ (e.op = "query" /\ "rows" \in DOMAIN e.exp)
 SaveRefusedIffEvaluated == \A i \in 1..Len(hist) : hist[i].op = "save" =>
-                    (hist[i].exp.ok = ~(\E j \in 1..(i - 1) : hist[j].op \in {"authorize", "query"} /\ ~(\E k \in (j + 1)..(i - 1) : hist[k].op = "reset")))
+                    (hist[i].exp.ok = ~(\E j \in 1..(i - 1) : Evaluated(hist[j]) /\ ~(\E k \in (j + 1)..(i - 1) : hist[k].op = "reset")))
 Export == stage = "done" => PrintT(<<"CASE", ToJson([hist |-> hist, toks |-> Toks])>>)
 =============================================================================
